@@ -30,7 +30,9 @@ ASSUMPTIONS = ['SQLite 3.40 file database in rollback-journal mode; SQLite itsel
                'to roll back a hot journal left by a dead process',
                'process death is os._exit(137) of a child process whose runs are frozen (threads stopped without unwinding) '
                'at their call k; power loss / torn pages are not modelled',
-               'the fault layer (sqlite3.Connection/Cursor subclasses given to Pony as factory=) raises genuine sqlite3 errors',
+               'the fault layer (sqlite3.Connection/Cursor subclasses given to Pony as factory=) raises genuine sqlite3 errors; it '
+               'opens every connection with PRAGMA synchronous=OFF (no fsync: irrelevant for errors and process death, which '
+               'are what is injected)',
                'PostgreSQL autocommit switching is not exercised (no server or driver in the sandbox)']
 SHARDS = {'quick': 4, 'thorough': 16}
 MIN_EVALS = {'quick': 600, 'thorough': 10000}
@@ -126,7 +128,7 @@ def run(ctx):
             found['family'] = 'crash' if v.case.get('exc') == 'crash' else 'error'   # keeps shrinking cheap
             raise
     try:
-        ctx.run_test(t, {'program': P.programs()}, max_examples=ctx.scale(12, 60), name='programs')
+        ctx.run_test(t, {'program': P.programs()}, max_examples=ctx.scale(18, 60), name='programs')
     finally:
         server.close()
     if ctx.violation is None and 'violation' in found:
